@@ -69,7 +69,8 @@ def rnd_fid(rng, n):
         kc = k + c
         paths = [kc, kc + "_1", kc + "_%d" % rng.randrange(1, 10000), kc.upper() + "_7", kc + "_", kc + "_0", kc + "_007", kc + "_1_2",
                  kc + "_x", kc + "_-1", kc + "_18446744073709551615", kc + "_18446744073709551616", "_" + kc, kc[:-1] + "_1",
-                 "0" + kc + "_3", kc + "_ 1", kc + "_1 ", kc + ".jpg", kc + "_99999"]
+                 "0" + kc + "_3", kc + "_ 1", kc + "_1 ", kc + ".jpg", kc + "_99999",
+                 c, c[:7], c + "_1", kc[:-1] + "g", "g" + kc, "0x" + kc, kc[:9], "0" * 25 + c, kc.replace(kc[0], "G", 1)]
         for m in rng.sample(paths, 4):
             out.append({"ev": "path", "s": cp(m)})
     return out
@@ -167,6 +168,11 @@ def run(ctx):
         k = 8 if ctx.thorough else 1
         ops += rnd_ttl_strings(rng, 500 * k)
         ops += rnd_fid(rng, 150 * k)
+        # the same TTL and file-id texts entering through an upload request (needle.CreateNeedleFromRequest)
+        tt = [o for o in ops if o["ev"] == "ttlstr"]
+        pp = [o for o in ops if o["ev"] == "path"]
+        ops += [{"ev": "upttl", "s": o["s"]} for o in rng.sample(tt, min(len(tt), 400 * k))]
+        ops += [{"ev": "upfid", "s": o["s"] + rng.choice([[], [], cp(".jpg"), cp(".q"), cp(".")])} for o in rng.sample(pp, min(len(pp), 250 * k))]
         ops += rnd_idx(rng, 200 * k, 4)
         ops += walks(rng, [0, 1, 2, 1023, 1024, 1025, 2047, 2048, 2049, rng.randrange(3, 3000)] + ([4096, 5000] if ctx.thorough else []))
         ops += rnd_sb(rng, 60 * k, [30000, 65500] if ctx.thorough else [5000])
